@@ -188,6 +188,11 @@ class Decl:
                                vals=[bits(float(v)) for v in c["vals"]]) for c in self.cols],
                     tref=self.tref_model_key(), pt=self.pt, no=self.no)
 
+    def concat(self, other):
+        """the table a file holds after `other` was appended to `self` (same header and metadata)"""
+        return Decl([dict(c, vals=np.concatenate([np.asarray(c["vals"]), np.asarray(o["vals"])]))
+                     for c, o in zip(self.cols, other.cols)], self.tref, self.pt, self.no)
+
     def build(self):
         """the real object, through the public API"""
         from thejoker.samples import JokerSamples
@@ -468,11 +473,13 @@ def sha(path):
         return hashlib.sha256(f.read()).hexdigest()
 
 
-def real_write(path, decl, ov, ap):
-    try:
-        obj = decl.build()
-    except Exception as e:   # the declared table itself is rejected: not a storage question
-        raise RuntimeError(f"generator produced a table JokerSamples rejects: {e!r}")
+def real_write(path, decl, ov, ap, obj=None):
+    """obj: write THIS object (one that was read back from an earlier file holding `decl`) instead of a fresh one"""
+    if obj is None:
+        try:
+            obj = decl.build()
+        except Exception as e:   # the declared table itself is rejected: not a storage question
+            raise RuntimeError(f"generator produced a table JokerSamples rejects: {e!r}")
     try:
         obj.write(path, overwrite=ov, append=ap)
         return "ok", None
@@ -800,6 +807,7 @@ class History:
         self.story = []          # human-readable op list for replays
         self.conv = {}
         self.dead = False        # a violation was found: the real file no longer follows the spec
+        self.epoch_tolerant = fmt == "fits"   # the epoch went through a FITS file at some point (one float64 MJD(TCB))
 
     # -- reporting helpers
     def inp(self, extra=None):
@@ -813,15 +821,16 @@ class History:
         self.ctx.violation(relation, self.g, self.inp(), impl, want, predicate, tags=tags)
 
     # -- ops
-    def write(self, decl, ov, ap, variant=None, detail=None):
+    def write(self, decl, ov, ap, variant=None, detail=None, obj=None, obj_origin=None):
         ctx = self.ctx
         rel = "write=Store.write" if self.fmt == "hdf5" else "fits-write=Store.write"
         new_log, want = spec_write(self.fmt, self.log, decl, ov, ap)
         before = sha(self.path)
         existed = before is not None
-        got, why = real_write(self.path, decl, ov, ap)
+        got, why = real_write(self.path, decl, ov, ap, obj=obj)
         after = sha(self.path)
         self.story.append(dict(op="write", overwrite=ov, append=ap, table=decl.describe(),
+                               **({"object_written": obj_origin} if obj_origin else {}),
                                **({"differs_from_file_in": variant, "how": detail} if variant else {}),
                                spec=want, impl=got if why is None else why))
         self.tables.append(decl.to_model())
@@ -881,8 +890,8 @@ class History:
                     self.violate(rel, "a table", "nofile", "reading a file that does not exist must fail",
                                  dict(op="read", fmt=self.fmt, spec="nofile"))
             return
-        got = real_read(self.path, self.fmt, want_fits)
-        if self.fmt == "fits" and "error" not in got and got["tref"] is not None and want is not None \
+        got = real_read(self.path, "fits" if self.epoch_tolerant else self.fmt, want_fits)
+        if self.epoch_tolerant and "error" not in got and got["tref"] is not None and want is not None \
                 and got["tref"] == want_fits["tref"]:
             got["tref"] = want["tref"]
         self.story.append(dict(op="read", after_write=after_write,
@@ -1227,6 +1236,55 @@ def fits_case(ctx, g, rng, h):
             h.verify()
 
 
+def chain_case(ctx, g, rng, h):
+    """a table travels through 2-4 files: written, read back, and the object that was READ is written to the next file
+    (HDF5 and FITS in any order, also appended to an HDF5 file that already holds a compatible table); after every hop
+    the file must hold exactly the declared table"""
+    from thejoker.samples import JokerSamples
+    schema = gen_schema(rng)
+    decl = gen_table(rng, schema, gen_rows(rng))
+    fmts = [str(rng.choice(["hdf5", "fits"])) for _ in range(int(rng.integers(2, 5)))]
+    if "fits" not in fmts:
+        fmts[int(rng.integers(0, len(fmts)))] = "fits"
+    work = os.path.dirname(h.path)
+    obj, origin, tolerant, hops = None, None, False, []
+    try:
+        for i, fmt in enumerate(fmts):
+            sub = os.path.join(work, f"hop{i}")
+            os.makedirs(sub)
+            hh = History(ctx, g, fmt, sub)
+            hops.append(hh)
+            hh.story = h.story          # one story for the whole chain
+            hh.epoch_tolerant = tolerant or fmt == "fits"
+            if i > 0:
+                ctx.count(f"chain:{fmts[i - 1]}->{fmt}")
+                if decl.tref is None:
+                    ctx.count(f"chain:{fmts[i - 1]}->{fmt}:no-epoch")
+            hh.write(decl, bool(rng.random() < 0.5), False, obj=obj, obj_origin=origin)
+            if hh.dead:
+                h.dead = True
+                return
+            if fmt == "hdf5" and rng.random() < 0.4:
+                hh.write(decl, False, True, obj=obj, obj_origin=origin)    # append the same object once more
+                if hh.dead:
+                    h.dead = True
+                    return
+            try:
+                obj = JokerSamples.read(hh.path)
+            except Exception as e:
+                raise core.Infra(f"chain: file verified a moment ago cannot be read: {e!r}")
+            origin = f"JokerSamples.read of the {fmt} file of hop {i}"
+            if len(hh.log) > 1:      # the next hop carries the doubled table
+                decl = decl.concat(hh.log[1]) if hasattr(decl, "concat") else None
+                if decl is None:
+                    break
+            tolerant = hh.epoch_tolerant
+        ctx.count("chain:completed")
+    finally:
+        for hh in hops:
+            hh.finish()
+
+
 def hist_long(ctx, g, rng, h):
     hist_case(ctx, g, rng, h, long=True)
 
@@ -1236,17 +1294,17 @@ def batch_long(ctx, g, rng, h):
 
 
 KINDS = {"hist": (hist_case, "hdf5"), "histlong": (hist_long, "hdf5"), "batch": (batch_case, "hdf5"),
-         "batchlong": (batch_long, "hdf5"), "fits": (fits_case, "fits"), "batchhuge": (batch_huge, "hdf5")}
+         "batchlong": (batch_long, "hdf5"), "fits": (fits_case, "fits"), "batchhuge": (batch_huge, "hdf5"), "chain": (chain_case, "hdf5")}
 
 
 def plan(ctx):
     """quick: ~45 s; thorough: ~14 min.  A case is a function of (kind, index, seed) only, so a replay does
     not depend on the tier it was found in."""
     if ctx.thorough:
-        n = dict(hist=1500, histlong=700, batch=250, batchlong=150, fits=400, batchhuge=25)
+        n = dict(hist=1500, histlong=700, batch=250, batchlong=150, fits=400, batchhuge=25, chain=400)
     else:
-        n = dict(hist=170, histlong=0, batch=30, batchlong=0, fits=30, batchhuge=2)
-    return [(k, i) for k in ("hist", "histlong", "batch", "batchlong", "fits", "batchhuge") for i in range(n[k])]
+        n = dict(hist=170, histlong=0, batch=30, batchlong=0, fits=30, batchhuge=2, chain=40)
+    return [(k, i) for k in ("hist", "histlong", "batch", "batchlong", "fits", "batchhuge", "chain") for i in range(n[k])]
 
 
 def run_case(ctx, g):
